@@ -1,6 +1,7 @@
 package ext
 
 import (
+	"github.com/alligator/jqawk/cli"
 	"strings"
 
 	lang "github.com/alligator/jqawk/src"
@@ -113,4 +114,89 @@ func VHC01NearGrammar() {
 	_, err := lang.EvalProgram(prog, []lang.InputFile{{Name: "<test>", Reader: &vh.DocStream{Items: []any{doc}}}}, nil, &out, true)
 	legal(err, "EvalProgram(near-grammatical text)")
 	vh.Reach("near-grammatical text evaluated")
+}
+
+var c01CliProgs = []string{
+	"BEGIN {", "BEGIN { print 1 +", "", "BEGIN { x = }", "BEGIN { print 1/0 }", "{ print $.a.b.c() }", "BEGIN { print 'abc }",
+	"\u00e9@", "BEGIN { print 1 }\n\n}", "BEGIN { print 1 }", "{ print $nosuch }", "function f( {", "BEGIN { x = /ab }", "#",
+}
+
+var c01CliSels = []string{"$", "", "$.(", "$.a(", "1/0", " ", "$nosuch", "'", "$.k["}
+
+// VHC01Cli: the command-line tool reports every failure as a diagnostic on standard
+// error and a non-zero status - it never ends in a Go panic, whatever the error's
+// position (end of input, empty text, selector text, -f file) and kind.
+func VHC01Cli() {
+	prog := c01CliProgs[vh.Choose("prog", len(c01CliProgs))]
+	tail := vh.ByteFrom("tail", "\n ;}x")
+	if tail != 'x' {
+		prog += string([]byte{tail})
+	}
+	p := &vh.Proc{Texts: map[string]string{}, Data: map[string]*vh.DocStream{}}
+	var args []string
+	if si := vh.Choose("sel", len(c01CliSels)+1); si > 0 {
+		args = append(args, "-r", c01CliSels[si-1])
+	}
+	if vh.Choose("progsrc", 2) == 1 {
+		p.Texts["p.jqawk"] = prog
+		args = append(args, "-f", "p.jqawk")
+	} else {
+		args = append(args, prog)
+	}
+	switch vh.Choose("input", 4) {
+	case 0:
+		p.Data["in.json"] = &vh.DocStream{Items: []any{map[string]any{"a": 1.0, "k": []any{1.0}}}}
+		args = append(args, "in.json")
+	case 1:
+		p.Data["in.json"] = &vh.DocStream{Items: []any{vh.Fault{Kind: vh.Garbage, Text: "@@"}}}
+		args = append(args, "in.json")
+	case 2:
+		args = append(args, "missing.json")
+	case 3:
+		p.Stdin = &vh.DocStream{Items: []any{[]any{1.0, "x"}}}
+	}
+	p.Args = args
+	res := vh.RunCLI(cli.Run, p)
+	vh.Reach("front end returned")
+	vh.Assert(res.Exit == 0 || res.Stderr != "", "C01: a failing run of the tool prints a diagnostic")
+	vh.Assert(vh.Or(res.Exit == 0, res.Exit == 1) || res.Exit == 2, "C01: the tool ends with an ordinary exit status")
+}
+
+// VHC01StringIndex: indexing, iterating and measuring a string of arbitrary bytes
+// (ASCII, multi-byte, invalid UTF-8) with an arbitrary numeric index never crashes.
+func VHC01StringIndex() {
+	n := 1 + vh.Choose("n", 2)
+	if vh.Thorough() {
+		n = 1 + vh.Choose("n3", 3)
+	}
+	// bytes from a table: ASCII, the pieces of two multi-byte characters, a byte that is
+	// never valid UTF-8 (single bytes are turned into strings by the code under test, which
+	// the engine can only do per concrete value)
+	bs := make([]byte, n)
+	for j := range bs {
+		bs[j] = vh.ByteFrom("s"+itoa(j), "a \xc3\xa9\xe6\x97\xa5\xff")
+	}
+	s := string(bs)
+	i := vh.FloatFrom("i", []float64{-7, -1, 0, 1, 2, 3, 4, 1.5})
+	doc := map[string]any{"s": s, "i": i}
+	form := vh.Choose("form", 6)
+	if form == 5 {
+		out, kp := runProg("{ for (c, o in $.s) { n = n + 1; last = o } print n <= $.s.length(), last < $.s.length() }", doc)
+		vh.Reach("string indexed")
+		vh.Assert(kp == OK && out == "true true\n", "C01: iterating a string of arbitrary bytes visits at most length() positions, all inside the string")
+		return
+	}
+	src := []string{
+		"$.s[$.i]",
+		"$.s[$.s.length() - 1]",
+		"$.s[$.s.length()]",
+		"[$.s[0], $.s[1], $.s[2], $.s[3]]",
+		"$.s.split('')[$.i]",
+	}[form]
+	cell, k, _ := evalExpr(src, doc)
+	vh.Reach("string indexed")
+	vh.Assert(k == OK || k == ErrRuntime, "C01: indexing a string ends in a value or a runtime error")
+	if form == 1 && k == OK {
+		vh.Assert(isStr(cell), "C01: the last byte position of a non-empty string holds a string")
+	}
 }
